@@ -1,5 +1,5 @@
 (* C07: COBS decoding of arbitrary bytes is total and agrees with the COBS definition. *)
-From PV Require Import Base MachineInt DataModel De Cobs CobsRef DeFlavors CobsDecFacts CobsEntry.
+From PV Require Import Base MachineInt DataModel De Cobs CobsRef DeFlavors CobsDecFacts CobsEntry GenEntryPoints.
 Open Scope N_scope.
 
 (* For every buffer, the in-place decoder (one buffer, explicit read and write indices, every
@@ -55,7 +55,15 @@ Example C07_example :
   take_from_bytes_cobs (TInt U8) [] = Err DeserializeUnexpectedEnd.
 Proof. repeat split; vm_compute; reflexivity. Qed.
 
+(* from_bytes, take_from_bytes, from_bytes_cobs and take_from_bytes_cobs of de/mod.rs match, token
+   for token up to renaming of locals, the code DeFlavors.from_bytes_cobs / take_from_bytes_cobs
+   were written from: decode_in_place[_report], the optional sentinel after src_used, the two
+   split_at_mut, from_bytes on the decoded prefix (re-checked on every run) *)
+Theorem C07_entry_points_are_the_source : de_entry_points_standard = true.
+Proof. reflexivity. Qed.
+
 Print Assumptions C07_decoder_is_reference.
 Print Assumptions C07_take_from_bytes_cobs.
 Print Assumptions C07_from_bytes_cobs.
 Print Assumptions C07_total.
+Print Assumptions C07_entry_points_are_the_source.
